@@ -4,7 +4,7 @@ ENGINES = [
     {
         "name": "vloop",
         "path": "vf/engine/vloop.py vf/engine/explore.py vf/engine/netsim.py",
-        "serves_properties": ["C04", "C05", "C06", "C07", "C19"],
+        "serves_properties": ["C04", "C05", "C06", "C07", "C08", "C19"],
         "kind_free_text": "stateless model checker for asyncio code: virtual-time BaseEventLoop stepped by hand, "
         "deviation-bounded exhaustive DFS over environment choices (segment delivery, timers, EOF/RST, cancel), "
         "replay of choice prefixes on fresh objects",
@@ -70,6 +70,20 @@ CHECKS = [
         "exactly hex+LF per message.",
         "note": "Trusted: CPython asyncio streams; independent hex-line codec. Not covered: messages longer than 4095 bytes (StreamReader limit 64 KiB "
         "is a documented asyncio bound), more than 3 messages except the bursts.",
+    },    {
+        "id": "C08",
+        "engine": "vloop",
+        "level": "model_checking",
+        "technique": "exhaustive crash-point enumeration (every byte offset of the peer's output x EOF/RST/silence) on the real transports and UDS client under a virtual-time event loop, with deviation-bounded timing exploration",
+        "text": "For tcp-lines, unix-lines, DoIP and HSFZ the exchange connect(+activation); write; (ack); reply against a well-behaved peer is cut at every "
+        "byte offset of the peer's output, by EOF, RST or silence, with and without a caller timeout (mode A: bare transport operations), under the "
+        "real UDSClient with max_retry 1/3 and a listener that accepts again after 0/0.05/0.35/2.5/11 s (mode B), and with double close / close after "
+        "loss (mode C); each scenario with <= 1 (thorough 2) timing deviations. Checked: every pending operation ends with a timeout, a connection error "
+        "or an empty read no later than caller timeout + ack time and never hangs (deadlock/horizon detection); no read returns data the peer did not "
+        "completely send; with a retry left and a peer that accepts and answers in time the request returns the correct reply through a reconnect; "
+        "close() never raises.",
+        "note": "Trusted: the stream loss model (eof_received / connection_lost(ConnectionResetError) / silence) and vloop. A read without caller timeout on "
+        "a merely silent peer is allowed to wait. Recovery is only demanded when the peer's answer on the new connection reached the client in time.",
     },
 ]
 
